@@ -137,6 +137,7 @@ type Gen struct {
 	axiomsAdded map[string]bool
 	loopHeadState map[*ssa.BasicBlock]*State
 	rangeVisited map[*ssa.Range]string
+	frameElems bool
 	frameDone bool
 	abstractMod bool
 	frameNothing bool
@@ -524,6 +525,11 @@ func (g *Gen) heapGet(st *State, name, sort string) string {
 	id := st.gen
 	if p, ok := st.pend[name]; ok && p > id {
 		id = p
+	}
+	if strings.HasPrefix(name, "E_") || strings.HasPrefix(name, "C_") {
+		if p, ok := st.pend["$elems"]; ok && p > id {
+			id = p
+		}
 	}
 	if strings.HasPrefix(name, "GG_") {
 		id = 0
